@@ -31,6 +31,16 @@ theorem stored_bytes_schedule_independent (need : List Nat) (es1 es2 : List R.Ev
     (hp : R.payloads id es1 = R.payloads id es2) : R.storedFor id s1 = R.storedFor id s2 := by
   rw [C07.stored_is_concat need es1 s1 h1 id, C07.stored_is_concat need es2 s2 h2 id, hp]
 
+/-- The request set is schedule-independent: two complete receiver runs (FIN sent) over the same change
+computation have requested the same ids, whatever the interleaving of STATs, requests, content and
+terminators was. -/
+theorem request_set_schedule_independent (need : List Nat) (es1 es2 : List R.Ev) (s1 s2 : R.St)
+    (h1 : R.run { need := need } es1 = some s1) (h2 : R.run { need := need } es2 = some s2)
+    (f1 : s1.finSent = true) (f2 : s2.finSent = true) (id : Nat) : id ∈ s1.reqd ↔ id ∈ s2.reqd := by
+  have n1 : s1.need = need := R.run_need _ es1 s1 h1
+  have n2 : s2.need = need := R.run_need _ es2 s2 h2
+  rw [C07.requests_are_exactly_the_needed_ids need es1 s1 h1 f1, C07.requests_are_exactly_the_needed_ids need es2 s2 h2 f2, n1, n2]
+
 /-- The set of changes (hence of requests and notifications) is a function of the two listings. -/
 theorem change_set_is_a_function (none : Bool) (L U : List StatE) :
     ∀ evs1 evs2, evs1 = diffB none L U → evs2 = diffB none L U → evs1 = evs2 := by
